@@ -39,8 +39,19 @@ Print Assumptions C20_translation_facts.
 
 (* shape 1: class C(<bases>, Generic[T1..Tn], <bases>) - Generic[..] at any position, the other bases
    classes or aliases - instantiated as C[X1..Xn]():  exactly {Ti: Xi}, in declaration order.
-   shapes 2 and 3: class S(<plain bases>, D[X1..Xn], <further bases>) with D declaring Generic[T1..Tn]:
-   the same dict, however the instance was made (also inside __init__). *)
+   shapes 2 and 3: class S(<extra bases>, D[X1..Xn], <further bases>) with D declaring Generic[T1..Tn]:
+   the same dict, however the instance was made (also inside __init__).
+
+   Full statement for shapes 2 and 3 (FALSE on the pinned tree, see C20_type_vars_foreign_base_refuted):
+
+     forall mx w k c ts xs oc, binding_subclass_full mx w c ts xs -> type_vars_at w k c oc = Ok (VDict (combine ts xs))
+
+   where the extra bases in front of D[xs] may also be parametrised bases that have nothing to do with the mixin
+   (List[int]; P[int] with a generic P that does not use GenericMixin).  What is proved (the _partial form; the
+   guard is spelled out in `binding_subclass`): every base in front of D[xs] is one the scan of _get_types passes
+   over - a class, or a parametrised base whose origin has __orig_bases__ none of which is Generic[..].  This is
+   the narrowest guard: a parametrised base in front that is not passed over either makes _get_types raise
+   AttributeError (origin without __orig_bases__) or is taken for the binding base (origin declares Generic). *)
 Theorem C20_type_vars_exact : forall w k c ts xs,
   (direct_generic w c ts -> forall o, type_vars_at w k c (Some (VAlias o xs)) = Ok (VDict (combine ts xs))) /\
   (binding_subclass w c ts xs -> forall oc, type_vars_at w k c oc = Ok (VDict (combine ts xs))).
@@ -48,6 +59,31 @@ Proof.
   intros. split; intros H ?; [now apply tv_direct|now apply tv_binding].
 Qed.
 Print Assumptions C20_type_vars_exact.
+
+(* known findings K-C20-builtin-alias-first and K-C20-foreign-generic-first:
+     class D(Generic[T], GenericMixin); class P(Generic[U])            (classes 10 and 11; the mixin is class 1)
+     class S1(List[int], D[str])  ->  S1().type_vars raises AttributeError      (list: class 50, no __orig_bases__)
+     class S3(P[int], D[str])     ->  S3().type_vars == {U: int}  instead of {T: str} *)
+Definition fb_world : world :=
+  {| w_classes := [(10, {| c_own_ob := Some [VAlias VGeneric [VTok 0]; VCls 1]; c_mro := [10; 2; 1; 0] |});
+                   (11, {| c_own_ob := Some [VAlias VGeneric [VTok 1]]; c_mro := [11; 2; 0] |});
+                   (12, {| c_own_ob := Some [VAlias (VCls 50) [VTok 20]; VAlias (VCls 10) [VTok 21]]; c_mro := [12; 50; 10; 2; 1; 0] |});
+                   (13, {| c_own_ob := Some [VAlias (VCls 11) [VTok 20]; VAlias (VCls 10) [VTok 21]]; c_mro := [13; 11; 10; 2; 1; 0] |})];
+     w_attrs := [] |}.
+
+Theorem C20_type_vars_foreign_base_refuted :
+  (exists mx w c ts xs, binding_subclass_full mx w c ts xs /\
+     forall k oc, type_vars_at w k c oc = Raise AttributeErrorC) /\
+  (exists mx w c ts xs, binding_subclass_full mx w c ts xs /\ combine ts xs = [(VTok 0, VTok 21)] /\
+     forall k oc, type_vars_at w k c oc = Ok (VDict [(VTok 1, VTok 20)])).
+Proof.
+  split.
+  - exists 1, fb_world, 12, [VTok 0], [VTok 21]. split; [apply binding_subclass_full_b_sound; vm_compute; reflexivity|].
+    intros k oc. reflexivity.
+  - exists 1, fb_world, 13, [VTok 0], [VTok 21]. split; [apply binding_subclass_full_b_sound; vm_compute; reflexivity|].
+    split; [reflexivity|]. intros k oc. reflexivity.
+Qed.
+Print Assumptions C20_type_vars_foreign_base_refuted.
 
 (* with as many arguments as parameters the dict has the TypeVars as keys and the arguments as values, in order *)
 Theorem C20_type_vars_order : forall (ts xs : list val),
@@ -142,12 +178,19 @@ Print Assumptions C20_class_body.
 (* ---------------------------------------------------------------------------------------------------- *)
 (* get_decorated_functions                                                                                  *)
 
-(* Full statement (C20_decorated_exact), FALSE on the pinned tree - see C20_decorated_dunder_refuted:
+(* Full statement (C20_decorated_exact), FALSE on the pinned tree - see C20_decorated_dunder_refuted and
+   C20_decorated_raising_property_refuted:
 
      forall w k c oc e ms cd,
        binding_subclass w c [e] [VEnumCls ms] -> nodup_str ms = true ->
-       build_table Gen.Mixins.prog_decorator_fun cd = Ok (w_attrs w) -> claimed cd = true -> alias_consistent cd ->
+       build_table Gen.Mixins.prog_decorator_fun cd = Ok (w_attrs w) -> in_domain cd = true -> alias_consistent cd ->
        spec_decorated_ok ms cd (gdf_at w k c oc) = true.
+
+   `claimed cd` below is `in_domain cd` + `no_raising_getter cd` (lemma claimed_split).
+   "Exactly the bound methods": a reported callable is identified by the identity of the object
+   getattr(instance, name) yields (m_id; two names of one function share it); `pairs_of` / `decorated` compare these
+   identities, so exactness is proved modulo that identification (the harness additionally checks on the real
+   objects that the key is a method bound to this instance / to the class / the plain function of a staticmethod).
 
    class K(<plain bases>, WithDecoratedMethods[Decorators], ...) - any class layout with that shape, any enum
    members ms, any class body cd in the claimed domain (any number of definitions; plain / async methods,
@@ -173,18 +216,19 @@ Proof.
 Qed.
 Print Assumptions C20_decorated_exact_modulo_dunder.
 
-(* the property, under the narrowest guard that excludes known finding K9: no *decorated method* has a name
-   that starts with two underscores (undecorated dunder methods, dunder attributes are fine) *)
+(* the property, under the narrowest guards that exclude the known findings: K9 - no *decorated method* has a name
+   that starts with two underscores (undecorated dunder methods, dunder attributes are fine); K-C20-raising-property -
+   no property of the class raises when read *)
 Theorem C20_decorated_exact_partial : forall w k c oc e ms cd,
   binding_subclass w c [e] [VEnumCls ms] -> nodup_str ms = true ->
-  build_table Gen.Mixins.prog_decorator_fun cd = Ok (w_attrs w) -> claimed cd = true -> alias_consistent cd ->
-  no_decorated_dunder cd = true ->
+  build_table Gen.Mixins.prog_decorator_fun cd = Ok (w_attrs w) -> in_domain cd = true -> alias_consistent cd ->
+  no_decorated_dunder cd = true -> no_raising_getter cd = true ->
   spec_decorated_ok ms cd (gdf_at w k c oc) = true /\
   exists d, gdf_at w k c oc = Ok (VDict d) /\ map fst d = map VStr ms /\
     forall t, In t ms -> exists inner, dict_get (VStr t) d = Some (VDict inner) /\
       (forall i y, In (i, y) (pairs_of inner) <-> In (i, y) (decorated cd t)).
 Proof.
-  intros w k c oc e ms cd Hb Hms Ht Hc Hal Hnd.
+  intros w k c oc e ms cd Hb Hms Ht Hdom Hal Hnd Hnr. pose proof (claimed_split cd Hdom Hnr) as Hc.
   assert (Hw : w_attrs w = map entry_of cd).
   { destruct (C20_class_body cd Hc) as [Hbt _]. rewrite Hbt in Ht. now inversion Ht. }
   split.
@@ -231,6 +275,34 @@ Proof.
   repeat split; try reflexivity; try assumption.
 Qed.
 Print Assumptions C20_decorated_dunder_refuted.
+
+(* known finding K-C20-raising-property: get_decorated_functions reads every attribute of the instance;
+     class K(WithDecoratedMethods[D]):  boom = property(<raises ValueError>);  @foo(1) def m(self)
+   -> the ValueError of the getter leaves get_decorated_functions instead of {FOO: {k.m: 1}} *)
+Definition rp_cd : list mdef :=
+  [ {| m_name := "boom"; m_id := 1; m_inner := []; m_wrap := WGetter (ARaise ValueErrorC); m_outer := [] |};
+    {| m_name := "m"; m_id := 2; m_inner := [{| d_type := "_foo"; d_val := VInt 1; d_tr := TrNone |}];
+       m_wrap := WPlain; m_outer := [] |} ].
+Definition rp_world : world :=
+  {| w_classes := [(1, {| c_own_ob := Some [VAlias (VCls 2) [VEnumCls k9_ms]]; c_mro := [1; 2] |});
+                   (2, {| c_own_ob := Some Gen.Mixins.wdm_own_bases; c_mro := [2] |})];
+     w_attrs := [("boom", ARaise ValueErrorC); ("m", AVal (VObj 2 [("_foo", VInt 1)]))] |}.
+
+Theorem C20_decorated_raising_property_refuted : exists w c e ms cd,
+  binding_subclass w c [e] [VEnumCls ms] /\ nodup_str ms = true /\
+  build_table Gen.Mixins.prog_decorator_fun cd = Ok (w_attrs w) /\ in_domain cd = true /\ alias_consistent cd /\
+  no_decorated_dunder cd = true /\ decorated cd "_foo" = [(2, VInt 1)] /\
+  (forall k oc, gdf_at w k c oc = Raise ValueErrorC) /\
+  (forall k oc, spec_decorated_ok ms cd (gdf_at w k c oc) = false).
+Proof.
+  exists rp_world, 1, (VTok 0), k9_ms, rp_cd.
+  assert (Hal : alias_consistent rp_cd).
+  { intros m1 m2 [<-|[<-|[]]] [<-|[<-|[]]] M1 M2 E; try reflexivity; discriminate. }
+  assert (Hv : forall k oc, gdf_at rp_world k 1 oc = Raise ValueErrorC) by (intros; reflexivity).
+  split; [apply wdm_binding with 2; reflexivity|].
+  repeat split; try reflexivity; try assumption.
+Qed.
+Print Assumptions C20_decorated_raising_property_refuted.
 
 (* unparametrised use - class K(WithDecoratedMethods): AssertionError *)
 Theorem C20_decorated_unparametrised_asserts : forall w k c ts,
